@@ -54,7 +54,7 @@ AddSpread ==
   /\ CanAdd
   /\ \E j \in 1..Len(Frags), d \in DirSet :
        /\ SpreadOK(sec, j)
-       /\ TypesOverlap(Sch, Frags[j].on, Top.pt)
+       /\ (IF HasType(Sch, Top.pt) THEN TypesOverlap(Sch, Frags[j].on, Top.pt) ELSE TRUE)
        /\ stack' = PushSel([k |-> "spread", id |-> nid + 1, name |-> Frags[j].name, dirs |-> d])
   /\ nid' = nid + 1 /\ UNCHANGED <<sec, done>>
 
